@@ -358,7 +358,8 @@ def run_instrs(ck, flags, instrs, driver, scratch, variants):
             if t == r:
                 ck.corr_agree("instr-search")
             else:
-                ck.stream("instr-search")["diverge"] += 1
+                st_ = ck.stream("instr-search")
+                st_["instruction_and_body_differ"] = st_.get("instruction_and_body_differ", 0) + 1
                 szs = ",".join("%s=%s" % kv for kv in sorted(c["sizes"].items()))
                 kind = "name-capture" if capture else "result-differs"
                 ck.violation("x86:%s:%s" % (u["instr"], kind),
@@ -420,6 +421,14 @@ def run(ck: common.Check):
     gen_ok = ck.gen(ENGINE)
     build_ok = ck.coq_build(ENGINE) if gen_ok else False
     ck.log("translator + coq build: %.0fs (ok=%s)" % (_t.time() - t0, build_ok))
+    if gen_ok and not build_ok:     # name the first lemma that no longer checks in each proof file
+        logf = common.SCRATCH / ("build_%s_%s.log" % (ck.pid, ENGINE))
+        for m in re.finditer(r'File "\./(\w+)\.v", line (\d+)', logf.read_text() if logf.exists() else ""):
+            lines = (XD / (m.group(1) + ".v")).read_text().splitlines()[:int(m.group(2))]
+            names = re.findall(r"^(?:Lemma|Theorem|Example)\s+(\w+)", "\n".join(lines), flags=re.M)
+            if names:
+                ck.broken_obligation("proof:%s.%s" % (m.group(1), names[-1]), "first statement of %s.v that no longer checks" % m.group(1))
+                ck.log("first broken statement in %s.v: %s" % (m.group(1), names[-1]))
     if not gen_ok:
         ck.log("translator failed: the search below still runs on whatever exo itself accepts")
     instrs = json.loads((XD / "_build" / "instrs.json").read_text()) if gen_ok else None
@@ -474,7 +483,7 @@ def run(ck: common.Check):
         units, not_runnable = run_instrs(ck, flags, instrs, driver, scratch, variants)
         ck.log("instruction search + correspondence: %.0fs" % (_t.time() - t0))
         for st in ("instr-search", "instr-frag", "instr-body"):
-            ck.log(st, {k: v for k, v in ck.stream(st).items() if k in ("cases", "agree", "diverge")})
+            ck.log(st, {k: v for k, v in ck.stream(st).items() if k != "distribution" and k != "first_divergences"})
 
     ck.cov["rule"] = (
         "obligations: one Coq theorem per @instr of exo/platforms/x86.py about the generated (fragment, body) terms "
